@@ -452,6 +452,7 @@ impl Session {
                             } else {
                                 // main.rs: `[output error]` and exit 1
                                 self.output_errors.set(self.output_errors.get() + 1);
+                                self.outputs.borrow_mut().insert(name.clone(), Some("<output error: not portable>".to_string()));
                             }
                         }
                     }
